@@ -134,6 +134,13 @@ def run_segment(ops: list, disk: str, segment: int = 0) -> dict:  # noqa: C901, 
             elif kind == "align":
                 b["builder"].config.spin_alignment = zc.make_alignment(op["v"])
                 b["dirty"] = True
+            elif kind == "align_inplace":
+                alignment = b["builder"].config.spin_alignment
+                if hasattr(alignment, "reference_subsystem"):
+                    alignment.reference_subsystem = int(op["v"])  # reconfigure the installed object in place
+                    b["dirty"] = True
+                else:
+                    ev["skipped"] = "alignment has no reference subsystem"
             elif kind == "scalar":
                 b["builder"].config.scalar_initial_state_mass = bool(op["v"])
                 b["dirty"] = True
@@ -222,6 +229,15 @@ def run_segment(ops: list, disk: str, segment: int = 0) -> dict:  # noqa: C901, 
                         b["model"] = model
                 else:
                     b["last"] = None
+            elif kind == "touch_model":
+                # a user annotates the model in place: a derived component that does not sort last
+                model = b["model"]
+                if model is None:
+                    ev["skipped"] = "no model"
+                else:
+                    first = next(iter(model.components.values()))
+                    model.components["I_{total}"] = 2 * first
+                    model.components.move_to_end("I_{total}", last=bool(op.get("last")))
             elif kind == "dump":
                 model = b["model"]
                 if model is None:
@@ -273,7 +289,14 @@ def run_segment(ops: list, disk: str, segment: int = 0) -> dict:  # noqa: C901, 
             elif kind == "dump_expr":
                 from . import z_exprs  # noqa: PLC0415
 
-                entry = z_exprs.pool_entry(op["e"])
+                try:
+                    entry = z_exprs.pool_entry(op["e"])
+                except Exception as exc:  # noqa: BLE001
+                    # building or unfolding the input failed (e.g. doit() of a composite that contains a
+                    # class which cannot be rebuilt from its args): not a statement about pickling
+                    ev["skipped"] = f"input could not be built: {type(exc).__name__}: {str(exc)[:80]}"
+                    events.append(ev)
+                    continue
                 path = os.path.join(disk, op["file"])
                 with open(path, "wb") as f:
                     pickle.dump(entry["expr"], f)
